@@ -1,7 +1,7 @@
 (* Theorem A: every entry of the specification's (dis)satisfaction table, executed by the
    Script semantics on the encoded fragment, leaves exactly what the fragment's base type
    promises (for every stack below it and every alt stack).  For well-typed fragments. *)
-From Verif Require Import Exec Ser Ast Types TypeCheck SatSpec ExecLemmas Spec TypesSpec.
+From Verif Require Import Exec Ser Ast Types TypeCheck SatSpec ExecLemmas Spec TypesSpec ScriptNumProofs.
 From Coq Require Import Lia.
 
 (* ---------- induction principle for the nested AST ---------- *)
@@ -383,16 +383,17 @@ Section TheoremA.
   (* ---------- conjunctions ---------- *)
   Lemma sat_and_v x y : sat (MAndV x y) = cross (sat x) (sat y).
   Proof. unfold all_sat. cbn [sd]. destruct (sd ke A x), (sd ke A y). reflexivity. Qed.
-  Lemma dsat_and_v x y : dsat (MAndV x y) = [].
-  Proof. unfold all_dsat. cbn [sd]. destruct (sd ke A x), (sd ke A y). reflexivity. Qed.
+  Lemma dsat_and_v x y : dsat (MAndV x y) = cross (sat x) (dsat y).
+  Proof. unfold all_sat, all_dsat. cbn [sd]. destruct (sd ke A x), (sd ke A y). reflexivity. Qed.
 
   Lemma A_andv_B x y u : goodV x -> goodB y u -> goodB (MAndV x y) u.
   Proof.
-    intros Hx [Hs _]. split; intros w rest al Hin.
+    intros Hx [Hs Hd]. split; intros w rest al Hin.
     - rewrite sat_and_v in Hin. apply in_cross in Hin. destruct Hin as [a [b [Ha [Hb ->]]]].
       destruct (Hs b rest al Hb) as [v [Hr Hv]]. exists v. split; [|exact Hv].
       cbn [enc]. rewrite exec_app, <- app_assoc, (Hx a (b ++ rest) al Ha). exact Hr.
-    - rewrite dsat_and_v in Hin. contradiction.
+    - rewrite dsat_and_v in Hin. apply in_cross in Hin. destruct Hin as [a [b [Ha [Hb ->]]]].
+      cbn [enc]. rewrite exec_app, <- app_assoc, (Hx a (b ++ rest) al Ha). apply Hd, Hb.
   Qed.
   Lemma A_andv_V x y : goodV x -> goodV y -> goodV (MAndV x y).
   Proof.
@@ -402,11 +403,13 @@ Section TheoremA.
   Qed.
   Lemma A_andv_K x y : goodV x -> goodK y -> goodK (MAndV x y).
   Proof.
-    intros Hx [Hs _]. split; intros w rest al Hin.
+    intros Hx [Hs Hd]. split; intros w rest al Hin.
     - rewrite sat_and_v in Hin. apply in_cross in Hin. destruct Hin as [a [b [Ha [Hb ->]]]].
       destruct (Hs b rest al Hb) as [kbs [sg [Hr Hrest]]]. exists kbs, sg. split; [|exact Hrest].
       cbn [enc]. rewrite exec_app, <- app_assoc, (Hx a (b ++ rest) al Ha). exact Hr.
-    - rewrite dsat_and_v in Hin. contradiction.
+    - rewrite dsat_and_v in Hin. apply in_cross in Hin. destruct Hin as [a [b [Ha [Hb ->]]]].
+      destruct (Hd b rest al Hb) as [kbs [Hr Hk]]. exists kbs. split; [|exact Hk].
+      cbn [enc]. rewrite exec_app, <- app_assoc, (Hx a (b ++ rest) al Ha). exact Hr.
   Qed.
 
   Lemma sd_and_b x y : sd ke A (MAndB x y) = (cross (sat x) (sat y), cross (dsat x) (dsat y)).
@@ -695,6 +698,198 @@ Section TheoremA.
       rewrite (bytes_eqb_neq (num_encode (Z.of_N k)) []) by (apply num_encode_nonzero; lia). reflexivity.
   Qed.
 
+  (* ---------- multi (CHECKMULTISIG) ---------- *)
+  Hypothesis Hsig_empty : forall kbs, e_sigok e kbs [] = false.
+
+  Inductive SubV : list bytes -> list bytes -> Prop :=
+  | SV_nil : SubV [] []
+  | SV_take kbs s K S : e_sigok e kbs s = true -> SubV K S -> SubV (kbs :: K) (s :: S)
+  | SV_skip kbs K S : SubV K S -> SubV (kbs :: K) S.
+
+  Lemma SubV_length K S : SubV K S -> (length S <= length K)%nat.
+  Proof. induction 1; cbn; lia. Qed.
+  Lemma SubV_drop K : forall s S, SubV K (s :: S) -> SubV K S.
+  Proof.
+    induction K as [|kbs K IH]; intros s S H; inversion H; subst.
+    - apply SV_skip. assumption.
+    - apply SV_skip. eapply IH. eassumption.
+  Qed.
+  Lemma SubV_nil_l S : SubV [] S -> S = [].
+  Proof. intros H. inversion H. reflexivity. Qed.
+  Lemma SubV_app K1 S1 K2 S2 : SubV K1 S1 -> SubV K2 S2 -> SubV (K1 ++ K2) (S1 ++ S2).
+  Proof. induction 1; intros H2; cbn; [assumption | apply SV_take; auto | apply SV_skip; auto]. Qed.
+  Lemma SubV_rev K S : SubV K S -> SubV (rev K) (rev S).
+  Proof.
+    induction 1; cbn.
+    - constructor.
+    - apply SubV_app; [assumption|]. apply SV_take; [assumption | constructor].
+    - rewrite <- (app_nil_r (rev S)). apply SubV_app; [assumption|]. apply SV_skip. constructor.
+  Qed.
+
+  Lemma mm_unfold kbs K s S :
+    multisig_match e (kbs :: K) (s :: S) =
+    if Nat.ltb (length (kbs :: K)) (length (s :: S)) then false
+    else if e_sigok e kbs s then multisig_match e K S else multisig_match e K (s :: S).
+  Proof.
+    cbn [multisig_match]. destruct (Nat.ltb _ _); [reflexivity|]. destruct (e_sigok e kbs s); [reflexivity|].
+    destruct K; reflexivity.
+  Qed.
+
+  Lemma mm_sub K : forall S, SubV K S -> multisig_match e K S = true.
+  Proof.
+    induction K as [|kbs K IH]; intros S H.
+    - apply SubV_nil_l in H. subst. reflexivity.
+    - destruct S as [|s S']; [reflexivity|]. rewrite mm_unfold.
+      pose proof (SubV_length _ _ H) as HL.
+      replace (Nat.ltb (length (kbs :: K)) (length (s :: S'))) with false by (symmetry; apply Nat.ltb_ge; exact HL).
+      destruct (e_sigok e kbs s) eqn:Es.
+      + apply IH. inversion H; subst; [assumption | eapply SubV_drop; eassumption].
+      + apply IH. inversion H; subst; [congruence | assumption].
+  Qed.
+
+  Lemma mm_empty_sig K : forall S, multisig_match e K ([] :: S) = false.
+  Proof.
+    induction K as [|kbs K IH]; intros S; [reflexivity|]. rewrite mm_unfold.
+    destruct (Nat.ltb _ _); [reflexivity|]. rewrite Hsig_empty. apply IH.
+  Qed.
+
+  Lemma take_n_app {X} (a b : list X) : take_n (length a) (a ++ b) = Some (a, b).
+  Proof. induction a as [|x a IH]; cbn; [destruct b; reflexivity|]. rewrite IH. reflexivity. Qed.
+
+  Lemma exec_pushes (bs : list bytes) s st :
+    exec e (map IPush bs ++ s) st = exec e s (mkSt (rev bs ++ stk st) (alt st)).
+  Proof.
+    revert st. induction bs as [|b bs IH]; intros st; cbn [map app rev].
+    - destruct st; reflexivity.
+    - rewrite exec_push, IH. cbn [stk alt]. rewrite <- app_assoc. reflexivity.
+  Qed.
+
+  Lemma pick_sigs_sub ks : forall j sigs, In sigs (pick_sigs A j ks) ->
+    SubV (map (kb ke) ks) sigs /\ length sigs = j /\ (forall s, In s sigs -> nz s).
+  Proof.
+    induction ks as [|key r IH]; intros j sigs Hin; cbn [pick_sigs] in Hin.
+    - destruct j; [|contradiction]. destruct Hin as [<-|[]]. cbn [map]. split; [apply SV_nil | split; [reflexivity | intros s []]].
+    - apply in_app_or in Hin. destruct Hin as [Hin|Hin].
+      + destruct j as [|j']; [contradiction|]. destruct (a_sig A key) as [sg|] eqn:Es; [|contradiction].
+        apply in_map_iff in Hin. destruct Hin as [sigs' [<- Hin']].
+        destruct (IH j' sigs' Hin') as [H1 [H2 H3]]. destruct (ok_sig HA key sg Es) as [Hok Hnz].
+        split; [cbn [map]; apply SV_take; assumption|]. split; [cbn; lia|]. intros s [<-|Hs]; [exact Hnz | apply H3, Hs].
+      + destruct (IH j sigs Hin) as [H1 [H2 H3]]. split; [cbn [map]; apply SV_skip; assumption|]. split; assumption.
+  Qed.
+
+  Lemma A_multi_gen k ks' :
+    (1 <= k <= N.of_nat (length ks'))%N -> (length ks' <= 20)%nat -> tap = false ->
+    (forall sigs rest al, In sigs (pick_sigs A (N.to_nat k) ks') ->
+       exec e ([push_int (Z.of_N k)] ++ map (fun key => IPush (kb ke key)) ks'
+               ++ [push_int (Z.of_nat (length ks')); IOp OP_CHECKMULTISIG]) (mkSt ((rev sigs ++ [[]]) ++ rest) al)
+       = Ok (mkSt ([1%N] :: rest) al)) /\
+    (forall rest al,
+       exec e ([push_int (Z.of_N k)] ++ map (fun key => IPush (kb ke key)) ks'
+               ++ [push_int (Z.of_nat (length ks')); IOp OP_CHECKMULTISIG]) (mkSt (repeat [] (S (N.to_nat k)) ++ rest) al)
+       = Ok (mkSt ([] :: rest) al)).
+  Proof.
+    intros Hk Hn Htap.
+    assert (Hsv : match e_sv e with SvTapscript => False | _ => True end).
+    { unfold tap in Htap. destruct (e_sv e); try exact I. discriminate. }
+    assert (Hmap : map (fun key => IPush (kb ke key)) ks' = map IPush (map (kb ke) ks')) by (rewrite map_map; reflexivity).
+    assert (Hkeys : forallb (e_keyok e) (rev (map (kb ke) ks')) = true).
+    { apply forallb_forall. intros x Hx. apply in_rev in Hx. apply in_map_iff in Hx. destruct Hx as [key [<- _]]. apply (ok_key HA). }
+    assert (Hlen : length (rev (map (kb ke) ks')) = length ks') by (rewrite rev_length, map_length; reflexivity).
+    split.
+    - intros sigs rest al Hin. destruct (pick_sigs_sub ks' _ _ Hin) as [Hsub [Hl _]].
+      cbn [app]. rewrite exec_cons, exec_push_int. cbn [bind stk alt]. rewrite Hmap, exec_pushes. cbn [stk alt].
+      rewrite exec_cons, exec_push_int. cbn [bind stk alt]. rewrite exec_op_cons. cbn [exec_op stk alt].
+      destruct (e_sv e); try contradiction;
+      (rewrite Hnum4 by lia; replace ((Z.of_nat (length ks') <? 0)%Z || (20 <? Z.of_nat (length ks'))%Z) with false
+         by (symmetry; apply Bool.orb_false_iff; split; [apply Z.ltb_ge | apply Z.ltb_ge]; lia);
+       rewrite Nat2Z.id, <- Hlen, take_n_app, Hnum4 by lia;
+       replace ((Z.of_N k <? 0)%Z || (Z.of_nat (length (rev (map (kb ke) ks'))) <? Z.of_N k)%Z) with false
+         by (symmetry; apply Bool.orb_false_iff; split; [apply Z.ltb_ge | apply Z.ltb_ge]; lia);
+       replace (Z.to_nat (Z.of_N k)) with (length (rev sigs)) by (rewrite rev_length; lia);
+       rewrite <- app_assoc, take_n_app; cbn [app]; rewrite Hkeys; cbn [negb];
+       rewrite (mm_sub _ _ (SubV_rev _ _ Hsub)); reflexivity).
+    - intros rest al.
+      cbn [app]. rewrite exec_cons, exec_push_int. cbn [bind stk alt]. rewrite Hmap, exec_pushes. cbn [stk alt].
+      rewrite exec_cons, exec_push_int. cbn [bind stk alt]. rewrite exec_op_cons. cbn [exec_op stk alt].
+      assert (Hrep : repeat (@nil byte) (S (N.to_nat k)) ++ rest = repeat [] (N.to_nat k) ++ [] :: rest).
+      { clear. induction (N.to_nat k) as [|j IH]; [reflexivity|]. cbn [repeat app] in *. rewrite IH. reflexivity. }
+      assert (Hk1 : exists j, N.to_nat k = S j) by (exists (pred (N.to_nat k)); lia). destruct Hk1 as [j Hj].
+      destruct (e_sv e); try contradiction;
+      (rewrite Hnum4 by lia; replace ((Z.of_nat (length ks') <? 0)%Z || (20 <? Z.of_nat (length ks'))%Z) with false
+         by (symmetry; apply Bool.orb_false_iff; split; [apply Z.ltb_ge | apply Z.ltb_ge]; lia);
+       rewrite Nat2Z.id, <- Hlen, take_n_app, Hnum4 by lia;
+       replace ((Z.of_N k <? 0)%Z || (Z.of_nat (length (rev (map (kb ke) ks'))) <? Z.of_N k)%Z) with false
+         by (symmetry; apply Bool.orb_false_iff; split; [apply Z.ltb_ge | apply Z.ltb_ge]; lia);
+       rewrite Hrep;
+       replace (Z.to_nat (Z.of_N k)) with (length (repeat (@nil byte) (N.to_nat k))) by (rewrite repeat_length; lia);
+       rewrite take_n_app; rewrite Hkeys; cbn [negb]; rewrite Hj; cbn [repeat]; rewrite mm_empty_sig;
+       cbn [forallb andb];
+       match goal with |- context [forallb ?f (repeat [] j)] =>
+         replace (forallb f (repeat [] j)) with true by (symmetry; clear; induction j; [reflexivity | cbn; assumption]) end;
+       reflexivity).
+  Qed.
+
+  (* ---------- multi_a (CHECKSIG / CHECKSIGADD chain) ---------- *)
+  Definition csa_tail (ks : list key) : script := flat_map (fun key => [IPush (kb ke key); IOp OP_CHECKSIGADD]) ks.
+
+  Lemma csa_tail_exec ks : tap = true -> forall j w acc rest al, In w (pick_sigs_a A j ks) ->
+    (0 <= acc)%Z -> (acc + Z.of_nat (length ks) < 2147483648)%Z ->
+    forall s, exec e (csa_tail ks ++ s) (mkSt (num_encode acc :: w ++ rest) al)
+            = exec e s (mkSt (num_encode (acc + Z.of_nat j) :: rest) al).
+  Proof.
+    intros Htap. assert (Hsv : e_sv e = SvTapscript) by (unfold tap in Htap; destruct (e_sv e); congruence).
+    induction ks as [|key r IH]; intros j w acc rest al Hin Ha Hb s; cbn [pick_sigs_a] in Hin.
+    - destruct j; [|contradiction]. destruct Hin as [<-|[]]. cbn [csa_tail flat_map app]. rewrite Z.add_0_r. reflexivity.
+    - cbn [length] in Hb. cbn [csa_tail flat_map app]. fold (csa_tail r).
+      rewrite exec_push, exec_op_cons. cbn [stk alt exec_op]. rewrite Hsv.
+      apply in_app_or in Hin. destruct Hin as [Hin|Hin].
+      + destruct j as [|j']; [contradiction|]. destruct (a_sig A key) as [sg|] eqn:Es; [|contradiction].
+        apply in_map_iff in Hin. destruct Hin as [w' [<- Hw']]. destruct (ok_sig HA key sg Es) as [Hok Hnz].
+        cbn [app]. rewrite (ok_key HA). cbn [negb]. rewrite Hnum4 by lia.
+        destruct sg as [|b0 sg']; [cbn in Hnz; lia|]. rewrite Hok. cbn [bind].
+        rewrite (IH j' w' (acc + 1)%Z rest al Hw') by lia. do 4 f_equal. lia.
+      + apply in_map_iff in Hin. destruct Hin as [w' [<- Hw']].
+        cbn [app]. rewrite (ok_key HA). cbn [negb]. rewrite Hnum4 by lia. cbn [bind].
+        rewrite (IH j w' acc rest al Hw') by lia. reflexivity.
+  Qed.
+
+  Lemma A_multi_a_gen k ks' : (1 <= k <= N.of_nat (length ks'))%N -> (length ks' < 1000)%nat -> tap = true ->
+    let sc := (match ks' with
+               | [] => []
+               | k0 :: rest => [IPush (kb ke k0); IOp OP_CHECKSIG] ++ csa_tail rest
+               end) ++ [push_int (Z.of_N k); IOp OP_NUMEQUAL] in
+    (forall w rest al, In w (pick_sigs_a A (N.to_nat k) ks') ->
+       exec e sc (mkSt (w ++ rest) al) = Ok (mkSt ([1%N] :: rest) al)) /\
+    (forall rest al, exec e sc (mkSt (repeat [] (length ks') ++ rest) al) = Ok (mkSt ([] :: rest) al)).
+  Proof.
+    intros Hk Hn Htap sc. assert (Hsv : e_sv e = SvTapscript) by (unfold tap in Htap; destruct (e_sv e); congruence).
+    destruct ks' as [|k0 r]; [cbn in Hk; lia|]. subst sc. cbn [length] in *.
+    assert (Hfin : forall tot rest al, (0 <= tot < 2147483648)%Z ->
+       exec e [push_int (Z.of_N k); IOp OP_NUMEQUAL] (mkSt (num_encode tot :: rest) al)
+       = Ok (mkSt (bool_bytes (Z.of_N k =? tot)%Z :: rest) al)).
+    { intros tot rest al Ht. rewrite exec_cons, exec_push_int. cbn [bind stk alt]. rewrite exec_op_cons.
+      cbn [exec_op stk alt]. rewrite !Hnum4 by lia. reflexivity. }
+    split.
+    - intros w rest al Hin. cbn [pick_sigs_a] in Hin. rewrite <- app_assoc. cbn [app].
+      rewrite exec_push, exec_op_cons. cbn [stk alt exec_op]. rewrite (ok_key HA). cbn [negb].
+      apply in_app_or in Hin. destruct Hin as [Hin|Hin].
+      + destruct (N.to_nat k) as [|j'] eqn:Ek; [contradiction|]. destruct (a_sig A k0) as [sg|] eqn:Es; [|contradiction].
+        apply in_map_iff in Hin. destruct Hin as [w' [<- Hw']]. destruct (ok_sig HA k0 sg Es) as [Hok Hnz].
+        cbn [app]. destruct sg as [|b0 sg']; [cbn in Hnz; lia|]. rewrite Hok. cbn [bind bool_bytes].
+        rewrite <- num_encode_1. rewrite (csa_tail_exec r Htap j' w' 1%Z rest al Hw') by lia.
+        rewrite Hfin by lia. replace (Z.of_N k =? 1 + Z.of_nat j')%Z with true by (symmetry; apply Z.eqb_eq; lia). reflexivity.
+      + apply in_map_iff in Hin. destruct Hin as [w' [<- Hw']]. cbn [app bind bool_bytes].
+        rewrite <- num_encode_0. rewrite (csa_tail_exec r Htap (N.to_nat k) w' 0%Z rest al Hw') by lia.
+        rewrite Hfin by lia. replace (Z.of_N k =? 0 + Z.of_nat (N.to_nat k))%Z with true by (symmetry; apply Z.eqb_eq; lia). reflexivity.
+    - intros rest al. rewrite <- app_assoc. cbn [app repeat].
+      rewrite exec_push, exec_op_cons. cbn [stk alt exec_op]. rewrite (ok_key HA). cbn [negb bind bool_bytes].
+      assert (Hz : In (repeat [] (length r)) (pick_sigs_a A 0 r)).
+      { clear. induction r as [|key r IH]; [left; reflexivity|]. cbn [pick_sigs_a length repeat].
+        apply in_or_app. right. apply in_map. exact IH. }
+      rewrite <- num_encode_0. rewrite (csa_tail_exec r Htap 0%nat _ 0%Z rest al Hz) by lia.
+      rewrite Hfin by lia. replace (Z.of_N k =? 0 + Z.of_nat 0)%Z with false by (symmetry; apply Z.eqb_neq; lia). reflexivity.
+  Qed.
+
   (* ---------- witness shapes promised by the input property (z, o, n) ---------- *)
   Definition top_nz (w : wit) : Prop := match w with a :: _ => nz a | [] => False end.
   Definition wshape (i : input) (issat : bool) (w : wit) : Prop :=
@@ -737,10 +932,10 @@ Section TheoremA.
       apply wshape_and; auto.
   Qed.
   Lemma lshape_and_sat ix iy Sx Dx Sy Dy :
-    lshape ix Sx Dx -> lshape iy Sy Dy -> lshape (and_input ix iy) (cross Sx Sy) [].
+    lshape ix Sx Dx -> lshape iy Sy Dy -> lshape (and_input ix iy) (cross Sx Sy) (cross Sx Dy).
   Proof.
-    intros [H1 H2] [H3 H4]. split; intros w Hin; [|contradiction]. apply in_cross in Hin.
-    destruct Hin as [a [b [Ha [Hb ->]]]]; apply wshape_and; auto.
+    intros [H1 H2] [H3 H4]. split; intros w Hin; apply in_cross in Hin;
+    destruct Hin as [a [b [Ha [Hb ->]]]]; apply wshape_and; auto using wshape_weaken.
   Qed.
 
   (* length-only claims (z / o): the flags do not matter *)
@@ -752,10 +947,10 @@ Section TheoremA.
   Lemma rbind_ok {X Y} (r : res X) (f : X -> res Y) y : rbind r f = ROk y -> exists a, r = ROk a /\ f a = ROk y.
   Proof. destruct r as [a|err]; cbn; [eauto | discriminate]. Qed.
 
-  (* fragments covered by this theorem: everything except the multisig leaves (see C01 notes) *)
+  (* fragments covered by this theorem: everything except raw_pk_h (which only arises from decoding) *)
   Fixpoint no_multi (m : ms) : Prop :=
     match m with
-    | MMulti _ _ | MSortedMulti _ _ | MMultiA _ _ | MSortedMultiA _ _ | MRawPkH _ => False
+    | MRawPkH _ => False
     | MAlt x | MSwap x | MCheck x | MDupIf x | MVerify x | MNonZero x | MZeroNotEqual x => no_multi x
     | MAndV x y | MAndB x y | MOrB x y | MOrD x y | MOrC x y | MOrI x y => no_multi x /\ no_multi y
     | MAndOr a b c => no_multi a /\ no_multi b /\ no_multi c
@@ -1052,6 +1247,13 @@ Section TheoremA.
     - destruct Hin as [<-|[]]. cbn. split; [reflexivity | discriminate].
   Qed.
 
+  Lemma top_rev_nz (sigs : list bytes) tl : length sigs <> 0%nat -> (forall s, In s sigs -> nz s) -> top_nz (rev sigs ++ tl).
+  Proof.
+    intros Hl Hnz. destruct (rev sigs) as [|a r] eqn:Er.
+    - exfalso. apply Hl. rewrite <- rev_length, Er. reflexivity.
+    - cbn. apply Hnz. apply in_rev. rewrite Er. left. reflexivity.
+  Qed.
+
   Theorem theoremA : forall m, stmt m.
   Proof.
     induction m using ms_ind'; try (intros t Ht Hwf Hnm; cbn in Hnm; contradiction).
@@ -1098,21 +1300,60 @@ Section TheoremA.
     - apply stmt_or_c; assumption.
     - apply stmt_or_i; assumption.
     - apply stmt_thresh; assumption.
+    - (* multi *) intros t Ht Hwf _. inversion Ht; subst. cbn [wf] in Hwf. destruct Hwf as [Hk [Hn [Htap _]]].
+      destruct (A_multi_gen k ks Hk Hn Htap) as [Hs Hd]. split.
+      + split; intros w rest al Hin; cbn [all_sat all_dsat sd fst snd] in Hin.
+        * apply in_map_iff in Hin. destruct Hin as [sigs [<- Hsg]]. exists [1%N]. split; [apply Hs, Hsg | apply goodval_one].
+        * destruct Hin as [<-|[]]. apply Hd.
+      + split; intros w Hin; cbn [all_sat all_dsat sd fst snd] in Hin; [|cbn; discriminate].
+        apply in_map_iff in Hin. destruct Hin as [sigs [<- Hsg]]. destruct (pick_sigs_sub ks _ _ Hsg) as [_ [Hl Hnz]].
+        cbn. intros _. apply top_rev_nz; [rewrite Hl; clear -Hk; lia | exact Hnz].
+    - (* sortedmulti *) intros t Ht Hwf _. inversion Ht; subst. cbn [wf] in Hwf. destruct Hwf as [Hk [Hn [Htap Hlen]]].
+      destruct (A_multi_gen k (ksort ke ks) ltac:(rewrite Hlen; exact Hk) ltac:(rewrite Hlen; exact Hn) Htap) as [Hs Hd].
+      rewrite Hlen in Hs, Hd. split.
+      + split; intros w rest al Hin; cbn [all_sat all_dsat sd fst snd] in Hin.
+        * apply in_map_iff in Hin. destruct Hin as [sigs [<- Hsg]]. exists [1%N]. split; [apply Hs, Hsg | apply goodval_one].
+        * destruct Hin as [<-|[]]. apply Hd.
+      + split; intros w Hin; cbn [all_sat all_dsat sd fst snd] in Hin; [|cbn; discriminate].
+        apply in_map_iff in Hin. destruct Hin as [sigs [<- Hsg]]. destruct (pick_sigs_sub (ksort ke ks) _ _ Hsg) as [_ [Hl Hnz]].
+        cbn. intros _. apply top_rev_nz; [rewrite Hl; clear -Hk; lia | exact Hnz].
+    - (* multi_a *) intros t Ht Hwf _. inversion Ht; subst. cbn [wf] in Hwf. destruct Hwf as [Hk [Hn [Htap _]]].
+      destruct (A_multi_a_gen k ks Hk Hn Htap) as [Hs Hd]. split.
+      + split; intros w rest al Hin; cbn [all_sat all_dsat sd fst snd] in Hin.
+        * exists [1%N]. split; [apply Hs, Hin | apply goodval_one].
+        * destruct Hin as [<-|[]]. apply Hd.
+      + split; intros w Hin; exact I.
+    - (* sortedmulti_a *) intros t Ht Hwf _. inversion Ht; subst. cbn [wf] in Hwf. destruct Hwf as [Hk [Hn [Htap Hlen]]].
+      destruct (A_multi_a_gen k (ksort ke ks) ltac:(rewrite Hlen; exact Hk) ltac:(rewrite Hlen; exact Hn) Htap) as [Hs Hd].
+      rewrite Hlen in Hd. split.
+      + split; intros w rest al Hin; cbn [all_sat all_dsat sd fst snd] in Hin.
+        * exists [1%N]. split; [apply Hs, Hin | apply goodval_one].
+        * destruct Hin as [<-|[]]. apply Hd.
+      + split; intros w Hin; exact I.
   Qed.
 End TheoremA.
 
+(* the arithmetic hypotheses are theorems (ScriptNumProofs.v) *)
+Theorem theoremA_closed (e : env) (ke : keyenv) (A : assets) : assets_ok e ke A ->
+  (forall kbs, e_sigok e kbs [] = false) ->
+  forall (m : ms) (t : ty), type_of m = ROk t -> wf e ke m -> no_multi m ->
+    good e ke A m t /\ shape ke A m t.
+Proof.
+  intros HA Hse. apply (theoremA e ke A); auto.
+  - intros z Hz. apply num_roundtrip; lia.
+  - intros z Hz. apply num_roundtrip; lia.
+  - apply num_truthy.
+  - intros v z. apply num_truthy_iff.
+Qed.
+
 (* a table satisfaction of a B-typed script is accepted as witness-script input *)
 Lemma witness_script_accepts (e : env) (ke : keyenv) (A : assets) :
-  (forall z, (0 <= z < 2147483648)%Z -> num_operand 4 (num_encode z) = Some z) /\
-  (forall z, (0 <= z < 2147483648)%Z -> num_operand 5 (num_encode z) = Some z) /\
-  (forall z, (0 < z < 2147483648)%Z -> truthy (num_encode z) = true) /\
-  (forall v z, num_operand 4 v = Some z -> truthy v = negb (z =? 0)%Z) ->
-  assets_ok e ke A ->
+  assets_ok e ke A -> (forall kbs, e_sigok e kbs [] = false) ->
   forall (m : ms) (t : ty), type_of m = ROk t -> c_base (t_corr t) = BB -> wf e ke m -> no_multi m ->
   forall w, In w (all_sat ke A m) -> accepts e (enc ke m) w = true.
 Proof.
-  intros [H1 [H2 [H3 H4]]] HA m t Ht Hb Hwf Hnm w Hin.
-  destruct (theoremA e ke A H1 H2 H3 H4 HA m t Ht Hwf Hnm) as [Hg _].
+  intros HA Hse m t Ht Hb Hwf Hnm w Hin.
+  destruct (theoremA_closed e ke A HA Hse m t Ht Hwf Hnm) as [Hg _].
   unfold good in Hg. rewrite Hb in Hg. destruct Hg as [Hs _].
   destruct (Hs w [] [] Hin) as [v [Hr [Htr _]]]. rewrite app_nil_r in Hr.
   unfold accepts. rewrite Hr. cbn. exact Htr.
